@@ -291,6 +291,27 @@ impl Session {
                 let v = self.xs().verif_dict_dump(from);
                 format!("dict:{}", v.join(" ; "))
             }
+            "printread" => {
+                // print the top of the stack with the literal printer, read the text back on a clone
+                let c = match self.xs().pop_data() {
+                    Ok(c) => c,
+                    Err(e) => return res_string(self.xs(), &Err(e)),
+                };
+                let text = match self.xs().format_cell(&c) {
+                    Ok(t) => t,
+                    Err(e) => return res_string(self.xs(), &Err(e)),
+                };
+                let mut other = self.states[self.cur].clone();
+                let r = other.eval(&text);
+                if r.is_err() {
+                    return format!("printread:UNREADABLE text={} {}", hex_bytes(text.as_bytes()), res_string(&other, &r));
+                }
+                match other.pop_data() {
+                    Ok(v) if v == c => String::from("printread:ok"),
+                    Ok(v) => format!("printread:DIFFERENT text={} got={}", hex_bytes(text.as_bytes()), other.verif_cell_string(&v)),
+                    Err(_) => format!("printread:NOTHING text={}", hex_bytes(text.as_bytes())),
+                }
+            }
             "d2load" => {
                 let r = xeh::d2_plugin::load(self.xs());
                 res_string(self.xs(), &r)
